@@ -110,6 +110,16 @@ def _ctor_cases(rng, quick):
         Wm, bm = rng.normal(0, 1, (3, 2)), rng.normal(0, 1, 3)
         out.append(("AdditiveCondition", lambda Wm=Wm, bm=bm: B.AdditiveCondition(lambda c: jnp.asarray(Wm) @ c + jnp.asarray(bm), (3,), (2,)),
                     lambda x, c, Wm=Wm, bm=bm: x + (Wm @ c + bm), (3,), (2,), dict(W=Wm.tolist(), b=bm.tolist())))
+        # "module: a callable whose output is broadcastable to shape": every broadcastable output shape, incl. column / row shaped
+        # ones on square and non-square bijection shapes (seeded change C07e squeezed the module output)
+        for bshape, oshapes in (((4, 4), [(4, 1), (1, 4), (4,), (), (1, 1), (4, 4)]), ((2, 3), [(2, 1), (1, 3), (3,), (), (2, 3)]), ((3,), [(1,), ()]), ((), [()]),
+                                ((1, 3), [(1, 1), (3,)]), ((2, 1, 2), [(2, 1, 1), (1, 2), (2,)])):
+            for oshape in oshapes:
+                k = int(np.prod(oshape, dtype=int))
+                Wo, bo = rng.normal(0, 1, (k, 2)), rng.normal(0, 1, k)
+                out.append((f"AdditiveCondition(shape={bshape},module output {oshape})",
+                            lambda Wo=Wo, bo=bo, oshape=oshape, bshape=bshape: B.AdditiveCondition(lambda c: (jnp.asarray(Wo) @ c + jnp.asarray(bo)).reshape(oshape), bshape, (2,)),
+                            lambda x, c, Wo=Wo, bo=bo, oshape=oshape: x + (Wo @ c + bo).reshape(oshape), bshape, (2,), dict(W=Wo.tolist(), b=bo.tolist(), module_output_shape=list(oshape))))
         for d in (1, 2, 4):
             for ns in (None, 0.3, 2.5):
                 p = rng.normal(0, 1.0, 2 * d + 1)
@@ -161,6 +171,13 @@ def run(ctx):
             got = np.asarray(obj.transform(jnp.asarray(x)) if c is None else obj.transform(jnp.asarray(x), jnp.asarray(c)), dtype=float)
             exp = np.asarray(ref(x) if c is None else ref(x, c), dtype=float)
             ur.count((desc, str(args), x.tolist()), tag=desc.split("(")[0])
+            if desc.startswith("AdditiveCondition") and got.shape == exp.shape:
+                # the documented inverse is y - module(condition): subtracting the same shift from the reference image gives x back
+                back = np.asarray(obj.inverse(jnp.asarray(exp), jnp.asarray(c)), dtype=float)
+                if back.shape != x.shape or not np.allclose(back, x, rtol=1e-9, atol=1e-9):
+                    ctx.violation(sig="AdditiveCondition:doc-reference-inverse", what=f"{desc}: inverse(x + module(c)) = {np.ravel(back).tolist()} instead of x = {np.ravel(x).tolist()}",
+                                  case=dict(constructor=desc, args=args, x=x.tolist(), condition=c.tolist()), found_input=True, unit=ur.name,
+                                  expected=np.ravel(x).tolist(), observed=np.ravel(back).tolist(), broken="documentation reference")
             if got.shape != exp.shape or not np.allclose(got, exp, rtol=1e-9, atol=1e-9):
                 ctx.violation(sig=f"{desc.split('(')[0]}:doc-reference", what=f"{desc}: transform({np.ravel(x).tolist()}) = {np.ravel(got).tolist()}, documented function gives {np.ravel(exp).tolist()}",
                               case=dict(constructor=desc, args=args, x=x.tolist(), condition=None if c is None else c.tolist()), found_input=True, unit=ur.name,
